@@ -46,9 +46,9 @@ def parseLine (views : Views) (ws : List String) : Option (Views × Option TEv) 
       let v : View := ⟨← parseBool sok, ← parseNat sid, ← parseNat stok, ← parseInt sprio, ← parseBool mok,
                        ← parseInt mid, ← parseInt mtok⟩
       some ((← parseNat n, v) :: views, none)
-    | ["inst", i, key, prio, tk, h, ttl, val, gr, mf, hh, cm, sttl] =>
+    | ["inst", i, key, prio, tk, h, ttl, val, gr, mf, hh, cm, sttl, cb] =>
       ev (.inst ⟨← parseNat i, key, ← parseInt prio, ← parseBool tk, ← parseNat h, ← parseNat ttl, ← parseNat val,
-                 ← parseNat gr, ← parseNat mf, ← parseBool hh, ← parseBool cm, ← parseNat sttl⟩)
+                 ← parseNat gr, ← parseNat mf, ← parseBool hh, ← parseBool cm, ← parseNat sttl, ← parseBool cb⟩)
     | ["hyp", a, b, c, d, f, ml, fe] =>
       ev (.hyp (← parseBool a) (← parseBool b) (← parseBool c) (← parseBool d) (← parseBool f) (← parseNat ml) (← parseNat fe))
     | "call" :: op :: i :: "create" :: key :: vs => do
